@@ -4,7 +4,7 @@
    The CRC clause is relative to the executable model of gots.ComputeCRC (Pmt.crc_model):
    `CRC field = compute_crc of the section bytes`; that compute_crc is CRC-32/MPEG-2 is C13. *)
 From Gots Require Import Base.Prelude Model.Psi Model.Pmt Spec.PmtSpec
-  Proofs.PmtBase Proofs.PmtParse Proofs.PmtTables Proofs.PmtRead Proofs.PmtMisc Proofs.PmtRemove Proofs.PmtFilter.
+  Proofs.PmtBase Proofs.PmtParse Proofs.PmtTables Proofs.PmtRead Proofs.PmtMisc Proofs.PmtRemove Proofs.PmtFilter Proofs.PmtHyp.
 Import Pmt.
 Local Open Scope N_scope.
 
@@ -27,6 +27,17 @@ Theorem C14_filter_spec : forall c pid items want,
             match missing with [] => None | _ => Some missing end)).
 Proof. exact filter_ok. Qed.
 Print Assumptions C14_filter_spec.
+
+(* decidable form (hyp_filterb checks every hypothesis but want <> []); run by modelexec on every generated deciding case *)
+Theorem C14_filter_spec_decidable : forall c pid items want, hyp_filterb c pid items = true -> want <> [] ->
+  filter_pmt_packets (ser_items pid true items) want =
+  Ok (let missing := missing_of (map epid (sstreams (sec c))) pid want in
+      if len missing =? len want then (None, Some missing)
+      else (Some (spec_repack (hdrs_of pid true items)
+                    (ser_unit {| pf := pf c; pre := []; sec := filtered_sec (sec c) want; stuffing := 0 |})),
+            match missing with [] => None | _ => Some missing end)).
+Proof. exact hyp_filterb_sound. Qed.
+Print Assumptions C14_filter_spec_decidable.
 
 (* the concatenated payload of the output packets (everything after the original headers) is exactly
    pointer_field, filler, the filtered section, then only 0xFF *)
